@@ -118,7 +118,7 @@ func (p *Prog) InvokeSites(iface *types.Named, name string) []CallSite {
 		for _, c := range Calls(fn) {
 			cc := c.Common()
 			if cc.IsInvoke() {
-				if cc.Method.Name() != name {
+				if cn(cc.Method) != name {
 					continue
 				}
 				rt := cc.Value.Type()
